@@ -1,3 +1,322 @@
-/-! C19 model (stub) -/
+import OtelVerif.Gen.ScrapeSignal
+/-!
+# C19 model (receiver / scraper / processor clauses): self-telemetry item counters
+
+Counter algebra mirroring, branch by branch,
+
+* `receiver/receiverhelper/obsreport.go` — `endOp` (accepted/refused split by error) and `recordMetrics`
+  (the per-signal instrument pair),
+* `scraper/scraperhelper/controller.go` — `scrapeMetrics` / `scrapeLogs` (results of the scrapers are
+  concatenated, a scraper that failed with a non-partial error is skipped, the total is reported through
+  the receiver operation **the code names**), `obs_metrics.go` / `obs_logs.go` (`wrapObsMetrics` /
+  `wrapObsLogs`: per-scraper scraped / errored counters),
+* `processor/processorhelper/{logs,metrics,traces}.go` + `obsreport.go` (`recordInOut`).
+
+Which receiver operation `scrapeLogs` / `scrapeMetrics` end is **regenerated** from the source
+(`Gen.ScrapeSignal`), so the same model covers the pinned code (`scrapeLogs` ends a *metrics* operation)
+and the repaired code.  The exporter clause lives in `Model/C19Exp.lean`.
+-/
 namespace OtelVerif.C19
+open OtelVerif.Gen
+
+inductive Signal | traces | metrics | logs
+deriving DecidableEq, Repr
+
+def Signal.all : List Signal := [.traces, .metrics, .logs]
+
+theorem Signal.mem_all (s : Signal) : s ∈ Signal.all := by cases s <;> simp [Signal.all]
+
+/-- signal codes of `Gen.ScrapeSignal` -/
+def Signal.code : Signal → Nat
+  | .traces => 0
+  | .metrics => 1
+  | .logs => 2
+
+def Signal.ofCode? : Nat → Option Signal
+  | 0 => some .traces
+  | 1 => some .metrics
+  | 2 => some .logs
+  | _ => none
+
+/-- `instrument.Add(ctx, n, attrs)` on the instrument of signal `s` in a per-signal family of counters -/
+def add (f : Signal → Nat) (s : Signal) (n : Nat) : Signal → Nat :=
+  fun t => if t = s then f t + n else f t
+
+def sumBy {α : Type} (f : α → Nat) : List α → Nat
+  | [] => 0
+  | x :: xs => f x + sumBy f xs
+
+/-! ## receiver: `ObsReport.endOp` / `recordMetrics` -/
+
+/-- `otelcol_receiver_accepted_{spans,metric_points,log_records}` and `…_refused_…` of one attribute set
+(receiver id, transport) -/
+structure Recv where
+  accepted : Signal → Nat := fun _ => 0
+  refused : Signal → Nat := fun _ => 0
+
+/-- one `End<sig>Op(ctx, format, n, err)`; `err` = the error is non-nil -/
+structure RecvOp where
+  sig : Signal
+  n : Nat
+  err : Bool
+deriving DecidableEq, Repr
+
+/-- `numAccepted := numReceivedItems; if err != nil { numAccepted = 0 }` -/
+def numAccepted (n : Nat) (err : Bool) : Nat := if err then 0 else n
+/-- `numRefused := 0; if err != nil { numRefused = numReceivedItems }` -/
+def numRefused (n : Nat) (err : Bool) : Nat := if err then n else 0
+
+/-- `endOp` → `recordMetrics(ctx, signal, numAccepted, numRefused)`: the switch picks the instrument pair of
+`signal` (tie: `Gen.ScrapeSignal.recordTable`, obligation `C19_recordMetrics_table`), both get an `Add`. -/
+def Recv.endOp (c : Recv) (op : RecvOp) : Recv :=
+  { accepted := add c.accepted op.sig (numAccepted op.n op.err)
+    refused := add c.refused op.sig (numRefused op.n op.err) }
+
+def Recv.run (c : Recv) (ops : List RecvOp) : Recv := ops.foldl Recv.endOp c
+
+/-- the counters after each operation of a history -/
+def Recv.trace (c : Recv) : List RecvOp → List (RecvOp × Recv)
+  | [] => []
+  | op :: ops => (op, c.endOp op) :: Recv.trace (c.endOp op) ops
+
+/-- items offered by the operations of signal `s` -/
+def offered (s : Signal) (ops : List RecvOp) : Nat := sumBy (fun o => if o.sig = s then o.n else 0) ops
+/-- … by those whose downstream result was success / failure -/
+def offeredOk (s : Signal) (ops : List RecvOp) : Nat := sumBy (fun o => if o.sig = s then numAccepted o.n o.err else 0) ops
+def offeredErr (s : Signal) (ops : List RecvOp) : Nat := sumBy (fun o => if o.sig = s then numRefused o.n o.err else 0) ops
+
+/-- span name suffix chosen by `Start<sig>Op`, and the attribute keys `endOp` sets on the span -/
+def spanSuffix : Signal → String
+  | .traces => "TraceDataReceived"
+  | .metrics => "MetricsReceived"
+  | .logs => "LogsReceived"
+
+def acceptedKey : Signal → String
+  | .traces => "accepted_spans"
+  | .metrics => "accepted_metric_points"
+  | .logs => "accepted_log_records"
+
+def refusedKey : Signal → String
+  | .traces => "refused_spans"
+  | .metrics => "refused_metric_points"
+  | .logs => "refused_log_records"
+
+/-! ### the property, stated on *observed* counter snapshots (search oracle) -/
+
+/-- one operation seen from outside: counters before, counters after -/
+def RecvStepOK (before after : Recv) (op : RecvOp) : Prop :=
+  (op.err = false → after.accepted op.sig = before.accepted op.sig + op.n ∧ after.refused op.sig = before.refused op.sig) ∧
+  (op.err = true → after.accepted op.sig = before.accepted op.sig ∧ after.refused op.sig = before.refused op.sig + op.n) ∧
+  (∀ t, t ≠ op.sig → after.accepted t = before.accepted t ∧ after.refused t = before.refused t)
+
+def RecvTraceOK : Recv → List (RecvOp × Recv) → Prop
+  | _, [] => True
+  | before, (op, after) :: rest => RecvStepOK before after op ∧ RecvTraceOK after rest
+
+/-- own-signal clause, executable -/
+def recvOwnB (before after : Recv) (op : RecvOp) : Bool :=
+  if op.err then
+    after.accepted op.sig == before.accepted op.sig && after.refused op.sig == before.refused op.sig + op.n
+  else
+    after.accepted op.sig == before.accepted op.sig + op.n && after.refused op.sig == before.refused op.sig
+
+/-- other-signals clause, executable: the first foreign signal whose counters moved -/
+def recvForeign (before after : Recv) (op : RecvOp) : Option Signal :=
+  Signal.all.find? (fun t => t != op.sig && !(after.accepted t == before.accepted t && after.refused t == before.refused t))
+
+def recvStepB (before after : Recv) (op : RecvOp) : Bool :=
+  recvOwnB before after op && (recvForeign before after op).isNone
+
+def recvCheck : Recv → List (RecvOp × Recv) → Bool
+  | _, [] => true
+  | before, (op, after) :: rest => recvStepB before after op && recvCheck after rest
+
+/-! ## scraper controller -/
+
+/-- what one scraper returned in one scrape.  `items` = what the receiver operation counts
+(`DataPointCount()` / `LogRecordCount()`), `units` = what `wrapObs*` feeds the scraped counter
+(`MetricCount()` for metrics — metrics, not points — / `LogRecordCount()` for logs). -/
+inductive ScrapeRes
+  | ok (items units : Nat)                  -- `err == nil`
+  | partialErr (items units failed : Nat)   -- `scrapererror.PartialScrapeError` (possibly wrapped): data kept
+  | fail (items : Nat)                      -- any other error: `continue`, whatever was returned is dropped
+deriving DecidableEq, Repr
+
+/-- contribution to the concatenated payload (`MoveAndAppendTo`) -/
+def ScrapeRes.kept : ScrapeRes → Nat
+  | .ok i _ => i
+  | .partialErr i _ _ => i
+  | .fail _ => 0
+
+/-- `numScrapedMetrics` / `numScrapedLogs` of `wrapObs*` -/
+def ScrapeRes.scraped : ScrapeRes → Nat
+  | .ok _ u => u
+  | .partialErr _ u _ => u
+  | .fail _ => 0
+
+/-- `numErroredMetrics` / `numErroredLogs` -/
+def ScrapeRes.errored : ScrapeRes → Nat
+  | .partialErr _ _ f => f
+  | _ => 0
+
+/-- one scrape: result of every configured scraper in order, and whether the next consumer fails -/
+structure Tick where
+  results : List ScrapeRes
+  sinkErr : Bool
+deriving DecidableEq, Repr
+
+def Tick.count (t : Tick) : Nat := sumBy ScrapeRes.kept t.results
+
+structure Scr where
+  recv : Recv := {}
+  /-- `otelcol_scraper_scraped_*` / `otelcol_scraper_errored_*` by scraper position -/
+  scraped : Nat → Nat := fun _ => 0
+  errored : Nat → Nat := fun _ => 0
+  /-- ledger of the instrumented next consumer: size of every payload it received, oldest first -/
+  sink : List Nat := []
+
+def resAt (rs : List ScrapeRes) (f : ScrapeRes → Nat) (i : Nat) : Nat :=
+  match rs[i]? with
+  | some r => f r
+  | none => 0
+
+/-- `scrapeMetrics` / `scrapeLogs`, reporting through the receiver operation of signal `sig` -/
+def Scr.scrape (sig : Signal) (c : Scr) (t : Tick) : Scr :=
+  { recv := c.recv.endOp ⟨sig, t.count, t.sinkErr⟩
+    scraped := fun i => c.scraped i + resAt t.results ScrapeRes.scraped i
+    errored := fun i => c.errored i + resAt t.results ScrapeRes.errored i
+    sink := c.sink ++ [t.count] }
+
+def Scr.run (sig : Signal) (c : Scr) (ts : List Tick) : Scr := ts.foldl (Scr.scrape sig) c
+
+/-- the receiver operations a scrape history amounts to -/
+def tickOps (sig : Signal) (ts : List Tick) : List RecvOp := ts.map (fun t => ⟨sig, t.count, t.sinkErr⟩)
+
+inductive Ctrl | metrics | logs
+deriving DecidableEq, Repr
+
+/-- the signal the controller carries -/
+def Ctrl.own : Ctrl → Signal
+  | .metrics => .metrics
+  | .logs => .logs
+
+/-- the signal of the `End*Op` that `scrapeMetrics` / `scrapeLogs` call **in the current source**.
+The translator only emits codes 0–2; the fallback is deliberately a signal no scraper controller
+carries, so a bad code can never make a statement about the own signal true. -/
+def Ctrl.usedCode : Ctrl → Nat
+  | .metrics => ScrapeSignal.scrapeMetricsEndSig
+  | .logs => ScrapeSignal.scrapeLogsEndSig
+
+def Ctrl.used (k : Ctrl) : Signal := (Signal.ofCode? k.usedCode).getD .traces
+
+def scrapeLogsSignal : Signal := Ctrl.logs.used
+def scrapeMetricsSignal : Signal := Ctrl.metrics.used
+
+/-- a scrape history as the property sees it: each scrape is an operation of the controller's **own**
+signal offering the items handed to the next consumer, ended with that consumer's result — paired with
+the receiver counters the code (reporting through the operation of signal `used`) shows afterwards -/
+def Scr.obsTrace (used own : Signal) (c : Scr) : List Tick → List (RecvOp × Recv)
+  | [] => []
+  | t :: ts => (⟨own, t.count, t.sinkErr⟩, (c.scrape used t).recv) :: Scr.obsTrace used own (c.scrape used t) ts
+
+/-- the scraper clause of the property for a controller carrying signal `own` whose scrape function
+reports through the receiver operation of signal `used`: for **every** scrape history, the items handed
+to the next consumer are recorded, accepted or refused by its result, under the counters of `own`, no
+other signal's counter moves, and accepted + refused of `own` equals what the next consumer received. -/
+def ScraperClause (own used : Signal) : Prop :=
+  ∀ ts : List Tick,
+    RecvTraceOK {} (Scr.obsTrace used own {} ts) ∧
+    ((Scr.run used {} ts).recv.accepted own + (Scr.run used {} ts).recv.refused own = sumBy id (Scr.run used {} ts).sink)
+
+/-! ## processor helper -/
+
+/-- what the process function and the next consumer do with one payload -/
+inductive ProcOutcome
+  | ok (out : Nat) (nextErr : Bool)   -- process function returns a payload of `out` items; next consumer fails or not
+  | err                               -- process function returns an error
+  | skip                              -- … returns (something wrapping) `ErrSkipProcessingData`
+deriving DecidableEq, Repr
+
+inductive ProcRet | nil | funcErr | nextErr
+deriving DecidableEq, Repr
+
+structure ProcOp where
+  sig : Signal
+  inp : Nat
+  outcome : ProcOutcome
+deriving DecidableEq, Repr
+
+/-- `otelcol_processor_incoming_items` / `…_outgoing_items` by `otel.signal`, and the ledger of the
+instrumented next consumers (items actually received, number of calls) -/
+structure Proc where
+  incoming : Signal → Nat := fun _ => 0
+  outgoing : Signal → Nat := fun _ => 0
+  fwdItems : Signal → Nat := fun _ => 0
+  fwdCalls : Signal → Nat := fun _ => 0
+
+/-- the consume function built by `NewLogs` / `NewMetrics` / `NewTraces` -/
+def Proc.consume (p : Proc) (op : ProcOp) : Proc × ProcRet :=
+  match op.outcome with
+  | .err =>      -- `obs.recordInOut(ctx, recordsIn, 0); return errFunc`
+    ({ p with incoming := add p.incoming op.sig op.inp, outgoing := add p.outgoing op.sig 0 }, .funcErr)
+  | .skip =>     -- `obs.recordInOut(ctx, recordsIn, 0); return nil`
+    ({ p with incoming := add p.incoming op.sig op.inp, outgoing := add p.outgoing op.sig 0 }, .nil)
+  | .ok out nextErr =>   -- `obs.recordInOut(ctx, recordsIn, recordsOut); return nextConsumer.Consume…(ctx, ld)`
+    ({ incoming := add p.incoming op.sig op.inp, outgoing := add p.outgoing op.sig out
+       fwdItems := add p.fwdItems op.sig out, fwdCalls := add p.fwdCalls op.sig 1 },
+     if nextErr then .nextErr else .nil)
+
+def Proc.run (p : Proc) (ops : List ProcOp) : Proc := ops.foldl (fun q op => (q.consume op).1) p
+
+def ProcOutcome.out : ProcOutcome → Nat
+  | .ok o _ => o
+  | _ => 0
+
+def given (s : Signal) (ops : List ProcOp) : Nat := sumBy (fun o => if o.sig = s then o.inp else 0) ops
+def forwardedBy (s : Signal) (ops : List ProcOp) : Nat := sumBy (fun o => if o.sig = s then o.outcome.out else 0) ops
+
+/-- counters of the three signals as seen from outside -/
+structure ProcSnap where
+  incoming : Signal → Nat := fun _ => 0
+  outgoing : Signal → Nat := fun _ => 0
+
+/-- one observed processor call: signal, items given, items the next consumer actually received during
+the call (`none` = it was not called), counters after -/
+structure ProcObs where
+  sig : Signal
+  inp : Nat
+  sink : Option Nat
+  after : ProcSnap
+
+def ProcStepOK (before : ProcSnap) (o : ProcObs) : Prop :=
+  o.after.incoming o.sig = before.incoming o.sig + o.inp ∧
+  o.after.outgoing o.sig = before.outgoing o.sig + o.sink.getD 0 ∧
+  (∀ t, t ≠ o.sig → o.after.incoming t = before.incoming t ∧ o.after.outgoing t = before.outgoing t)
+
+def ProcTraceOK : ProcSnap → List ProcObs → Prop
+  | _, [] => True
+  | before, o :: rest => ProcStepOK before o ∧ ProcTraceOK o.after rest
+
+def procIncomingB (before : ProcSnap) (o : ProcObs) : Bool := o.after.incoming o.sig == before.incoming o.sig + o.inp
+def procOutgoingB (before : ProcSnap) (o : ProcObs) : Bool := o.after.outgoing o.sig == before.outgoing o.sig + o.sink.getD 0
+def procForeign (before : ProcSnap) (o : ProcObs) : Option Signal :=
+  Signal.all.find? (fun t => t != o.sig && !(o.after.incoming t == before.incoming t && o.after.outgoing t == before.outgoing t))
+
+def procStepB (before : ProcSnap) (o : ProcObs) : Bool :=
+  procIncomingB before o && procOutgoingB before o && (procForeign before o).isNone
+
+def procCheck : ProcSnap → List ProcObs → Bool
+  | _, [] => true
+  | before, o :: rest => procStepB before o && procCheck o.after rest
+
+def Proc.snap (p : Proc) : ProcSnap := { incoming := p.incoming, outgoing := p.outgoing }
+
+/-- the observations the model itself produces for a history -/
+def Proc.obsTrace (p : Proc) : List ProcOp → List ProcObs
+  | [] => []
+  | op :: ops =>
+    let q := (p.consume op).1
+    { sig := op.sig, inp := op.inp
+      sink := (match op.outcome with | .ok o _ => some o | _ => none), after := q.snap } :: Proc.obsTrace q ops
+
 end OtelVerif.C19
